@@ -671,6 +671,44 @@ var witnesses = []witness{
 		}
 		return wantEq("rows a fresh reader merges together", sqlh.QS(dbC, "select k from c order by k"), i(1)+" | "+i(3))
 	}},
+	{id: "F56", props: []string{"C14", "C05"}, known: true, what: "with a node cache, a COMMIT that fails while storing nodes leaves the connection unusable or with the failed statement's row still in its tree", run: func(w *wEnv) string {
+		for fail := 0; fail < 3; fail++ {
+			t := fmt.Sprintf("t%d", fail)
+			var cl *fakes3.Client
+			sqlh.NextClient("w", func(c *fakes3.Client) { cl = c })
+			r := w.mk(t, "k primary key, a", sqlh.TableOpts{EntriesPerNode: 2, NodeCache: 1000, Prefix: t})
+			sqlh.NextClient("", nil)
+			if r != "ok" || cl == nil {
+				return "create: " + r
+			}
+			for k := 0; k < 16; k++ {
+				w.x("insert into "+t+" values(?,'v')", k*10)
+			}
+			n, hit := 0, false
+			cl.Fault = func(idx, midx int, op, key string) error {
+				if op == "PUT" && strings.Contains(key, "/node/") {
+					n++
+					if n-1 == fail && !hit {
+						hit = true
+						return awserr.New("InternalError", "injected fault", nil)
+					}
+				}
+				return nil
+			}
+			res := w.x("insert into " + t + " values(55,'new')")
+			cl.Fault = nil
+			if !hit || !strings.HasPrefix(res, "ERR") {
+				return fmt.Sprintf("the insert whose commit was to fail answered %s (fault hit: %v)", res, hit)
+			}
+			if e := wantEq(fmt.Sprintf("rows after the failed insert (node PUT %d failed)", fail), w.q("select count(*) from "+t), i(16)); e != "" {
+				return e
+			}
+			if res := w.x("insert into " + t + " values(56,'again')"); res != "ok" {
+				return "the connection cannot write after the fault cleared: " + res
+			}
+		}
+		return ""
+	}},
 	{id: "F10", props: []string{"C08"}, known: true, what: "empty TEXT reads back as NULL", run: func(w *wEnv) string {
 		w.mk("t", "k primary key, a", sqlh.TableOpts{})
 		w.x("insert into t values (1,'')")
